@@ -71,7 +71,8 @@ func (e *env) runCopyTable(ts TableSpec, idx int) {
 					c.Outcome("copy:info-entry-with-user-key-equal-to-end-not-copied")
 					c.Note("info_end_key_not_copied_example", fmt.Sprintf("%s: %s", cs, res.endKeyMissed))
 				}
-				if k++; e.sample && k == 41 {
+				if k++; e.sample && k > 41 && res.inSpan > 0 && (res.inSpan < n || n == 1) {
+					e.sample = false
 					c.Sample(map[string]any{"case": cs.String(), "output": res.out})
 				}
 			}
